@@ -1076,14 +1076,17 @@ func c15PerformJoin(c *mon.Ctx, r *gen.Rand, sc *simScenario, b *simBranch) {
 			simCreateVersionOverride = gen.Pick(r, []string{"9000", "9000", "<empty>"})
 			alt := genScenario(r.Fork("altroom"), s.ver, 2)
 			simCreateVersionOverride = ""
-			if r.Chance(0.5) {
-				// the resident server also lists, first in the auth chain, a badly signed create event of another room whose
-				// version is known: a sanity check that stops at the first create event it sees is satisfied by the decoy
-				// (badly signed, or - a room the resident server is in as well - signed as it should be)
-				c15DecoyCreate, c15DecoyCreateIntact = sc.s.create, r.Chance(0.5)
+			// three times: as it is; the resident server also lists, first in the auth chain, a badly signed create event
+			// of another room whose version is known (a sanity check that stops at the first create event it sees is
+			// satisfied by the decoy); the same with the decoy signed as it should be (a room the resident server is in
+			// as well)
+			for variant := 0; variant < 3; variant++ {
+				if variant > 0 {
+					c15DecoyCreate, c15DecoyCreateIntact = sc.s.create, variant == 2
+				}
+				c15PerformJoinOn(c, r, alt, alt.trunk.clone(), vec, names)
+				c15DecoyCreate, c15DecoyCreateIntact = nil, false
 			}
-			c15PerformJoinOn(c, r, alt, alt.trunk.clone(), vec, names)
-			c15DecoyCreate, c15DecoyCreateIntact = nil, false
 			continue
 		}
 		c15PerformJoinOn(c, r, sc, rb, vec, names)
